@@ -6,9 +6,16 @@
 //   W<t>:<r>  thread t enters `with_local_recorder(&rec_r, || ..)` (takes the next guard id)
 //   X<t>      the innermost with_local_recorder closure of t returns        P<t>  it panics (unwinds every open closure of t)
 //   B<r>      the borrow of recorder double r ends (flag only; the double lives in a leaked Box)
+//   R<r>:w<i> | R<r>:z<n> | R<r>:s<slot>.<ty>   (before the ops) WHERE recorder double r lives; undeclared = a leaked Box of its own:
+//             w<i>: r is a decorating recorder (repr(C)) whose first field is recorder double i: &r and &i are the same address;
+//             z<n>: r is the zero-sized recorder type Z<n> (all boxed ZSTs share one address);
+//             s<slot>.<ty>: r lives in reusable storage <slot>, viewed as type Dbl (ty 0) or Dbl2 (ty 1): a later recorder of the
+//             same slot is constructed at the address the earlier, dead one occupied (at its first I/W/G).
+//             A recorder's identity is its id, never its address or type: none of this may change what is observed.
 //   G<r>      set_global_recorder(rec_r)   (a line containing one is run in a child process: once per process)
 //   E<t>:<site>:x<name>:x<v1>:x<v2>:x<desc>:<unit idx>:x<k>=x<v>,..   macro call site <site> of c01_sites.rs on thread t
-// stdout: one JSON line per program: for each E, in order, the list of calls any double received while it ran:
+// stdout: one JSON line per program {"o":[..],"same":n}: n = pairs of distinct doubles of the program at one address; o = for each
+//   E, in order, the list of calls any double received while it ran:
 //   [[{"r":rid,"t":tid,"c":call,"n":hex,"l":[[hex,hex],..],"m":null|[hex,level,null|hex],"u":null|"unit","d":hex,"x":0|1}]]
 //   x = 1: the double's in-scope flag was already cleared when it was called.
 use metrics::{Counter, Gauge, Histogram, Key, KeyName, Label, Level, LocalRecorderGuard, Metadata, Recorder, SharedString, Unit};
@@ -16,7 +23,7 @@ use std::cell::{Cell, RefCell};
 use std::collections::HashMap;
 use std::io::{BufRead, Read, Write};
 use std::panic::{catch_unwind, AssertUnwindSafe};
-use std::sync::atomic::{AtomicBool, Ordering};
+use std::sync::atomic::{AtomicBool, AtomicU64, Ordering};
 use std::sync::mpsc::{channel, Receiver, Sender};
 use std::sync::Mutex;
 
@@ -27,7 +34,18 @@ use sites::Args;
 static LOG: Mutex<Vec<String>> = Mutex::new(Vec::new());
 thread_local! { static WORKER: Cell<u64> = Cell::new(u64::MAX); }
 
-struct Dbl { id: u64, live: AtomicBool }
+// Recorder doubles.  Every kind logs (its id, is its in-scope flag cleared) through `ident`.
+#[repr(C)] struct Dbl { id: AtomicU64, live: AtomicBool }
+#[repr(C)] struct Dbl2 { id: AtomicU64, live: AtomicBool }            // same layout as Dbl, another type (another vtable)
+#[repr(C)] struct Wrap { inner: Dbl, id: AtomicU64, live: AtomicBool } // decorator: the wrapped recorder is the first field
+struct Z<const N: usize>;                                             // zero-sized recorders; identity and flag by type
+static ZC: [Dbl; 4] = [Dbl::new(0), Dbl::new(0), Dbl::new(0), Dbl::new(0)];
+impl Dbl { const fn new(id: u64) -> Dbl { Dbl { id: AtomicU64::new(id), live: AtomicBool::new(true) } } }
+trait Ident { fn ident(&self) -> (u64, bool); }
+impl Ident for Dbl { fn ident(&self) -> (u64, bool) { (self.id.load(Ordering::SeqCst), self.live.load(Ordering::SeqCst)) } }
+impl Ident for Dbl2 { fn ident(&self) -> (u64, bool) { (self.id.load(Ordering::SeqCst), self.live.load(Ordering::SeqCst)) } }
+impl Ident for Wrap { fn ident(&self) -> (u64, bool) { (self.id.load(Ordering::SeqCst), self.live.load(Ordering::SeqCst)) } }
+impl<const N: usize> Ident for Z<N> { fn ident(&self) -> (u64, bool) { ZC[N].ident() } }
 
 fn hex(s: &str) -> String { s.bytes().map(|b| format!("{:02x}", b)).collect() }
 fn unhex(s: &str) -> String {
@@ -39,9 +57,10 @@ fn level_ix(l: &Level) -> u8 {
     if *l == Level::TRACE { 0 } else if *l == Level::DEBUG { 1 } else if *l == Level::INFO { 2 } else if *l == Level::WARN { 3 } else if *l == Level::ERROR { 4 } else { 9 }
 }
 
-impl Dbl {
+struct Logger(u64, bool);
+impl Logger {
     fn rec(&self, call: u8, name: &str, labels: Vec<(String, String)>, meta: Option<&Metadata<'_>>, unit: Option<Unit>, desc: &str) {
-        let dead = !self.live.load(Ordering::SeqCst);
+        let dead = !self.1;
         let l: Vec<String> = labels.iter().map(|(k, v)| format!("[\"{}\",\"{}\"]", hex(k), hex(v))).collect();
         let m = match meta {
             None => "null".to_string(),
@@ -50,7 +69,7 @@ impl Dbl {
         };
         let u = match unit { None => "null".to_string(), Some(u) => format!("\"{}\"", u.as_str()) };
         let e = format!("{{\"r\":{},\"t\":{},\"c\":{},\"n\":\"{}\",\"l\":[{}],\"m\":{},\"u\":{},\"d\":\"{}\",\"x\":{}}}",
-                        self.id, WORKER.with(|w| w.get()), call, hex(name), l.join(","), m, u, hex(desc), if dead { 1 } else { 0 });
+                        self.0, WORKER.with(|w| w.get()), call, hex(name), l.join(","), m, u, hex(desc), if dead { 1 } else { 0 });
         LOG.lock().unwrap().push(e);
     }
     fn key(&self, call: u8, key: &Key, meta: &Metadata<'_>) {
@@ -58,55 +77,139 @@ impl Dbl {
         self.rec(call, key.name(), labels, Some(meta), None, "");
     }
 }
-impl Recorder for Dbl {
-    fn describe_counter(&self, k: KeyName, u: Option<Unit>, d: SharedString) { self.rec(3, k.as_str(), vec![], None, u, &d) }
-    fn describe_gauge(&self, k: KeyName, u: Option<Unit>, d: SharedString) { self.rec(4, k.as_str(), vec![], None, u, &d) }
-    fn describe_histogram(&self, k: KeyName, u: Option<Unit>, d: SharedString) { self.rec(5, k.as_str(), vec![], None, u, &d) }
-    fn register_counter(&self, k: &Key, m: &Metadata<'_>) -> Counter { self.key(0, k, m); Counter::noop() }
-    fn register_gauge(&self, k: &Key, m: &Metadata<'_>) -> Gauge { self.key(1, k, m); Gauge::noop() }
-    fn register_histogram(&self, k: &Key, m: &Metadata<'_>) -> Histogram { self.key(2, k, m); Histogram::noop() }
+macro_rules! impl_double {
+    ($($gen:tt)*) => {
+        impl $($gen)* {
+            fn lg(&self) -> Logger { let (id, live) = self.ident(); Logger(id, live) }
+        }
+        impl Recorder for $($gen)* {
+            fn describe_counter(&self, k: KeyName, u: Option<Unit>, d: SharedString) { self.lg().rec(3, k.as_str(), vec![], None, u, &d) }
+            fn describe_gauge(&self, k: KeyName, u: Option<Unit>, d: SharedString) { self.lg().rec(4, k.as_str(), vec![], None, u, &d) }
+            fn describe_histogram(&self, k: KeyName, u: Option<Unit>, d: SharedString) { self.lg().rec(5, k.as_str(), vec![], None, u, &d) }
+            fn register_counter(&self, k: &Key, m: &Metadata<'_>) -> Counter { self.lg().key(0, k, m); Counter::noop() }
+            fn register_gauge(&self, k: &Key, m: &Metadata<'_>) -> Gauge { self.lg().key(1, k, m); Gauge::noop() }
+            fn register_histogram(&self, k: &Key, m: &Metadata<'_>) -> Histogram { self.lg().key(2, k, m); Histogram::noop() }
+        }
+    };
+}
+impl_double!(Dbl);
+impl_double!(Dbl2);
+impl_double!(Wrap);
+impl_double!(Z<0>);
+impl_double!(Z<1>);
+impl_double!(Z<2>);
+impl_double!(Z<3>);
+
+type DynRec = &'static (dyn Recorder + Sync);
+#[derive(Clone, Copy)]
+struct Handle { rec: DynRec, live: &'static AtomicBool, addr: usize }
+#[derive(Clone, Copy)]
+enum Place { Own, Wrap(u64), Zst(usize), Slot(u64, u8) }
+
+// Where the doubles of one program live.
+struct Doubles { place: HashMap<u64, Place>, inner_of: HashMap<u64, u64>, made: HashMap<u64, Handle>,
+                 slots: HashMap<u64, &'static Dbl>, occupant: HashMap<u64, u64> }
+impl Doubles {
+    fn addr<T: ?Sized>(p: &T) -> usize { p as *const T as *const () as usize }
+    fn handle(&mut self, r: u64) -> Handle {
+        if let Some(h) = self.made.get(&r) { return *h; }
+        let place = *self.place.get(&r).unwrap_or(&Place::Own);
+        // r may be the wrapped recorder of a declared decorator
+        let wrapper = if let Place::Wrap(_) = place { Some(r) } else { self.inner_of.get(&r).copied() };
+        if let Some(w) = wrapper {
+            let i = match self.place[&w] { Place::Wrap(i) => i, _ => unreachable!() };
+            let b: &'static Wrap = Box::leak(Box::new(Wrap { inner: Dbl::new(i), id: AtomicU64::new(w), live: AtomicBool::new(true) }));
+            assert_eq!(Self::addr(b), Self::addr(&b.inner), "decorator and decorated recorder must share their address");
+            self.made.insert(w, Handle { rec: b, live: &b.live, addr: Self::addr(b) });
+            self.made.insert(i, Handle { rec: &b.inner, live: &b.inner.live, addr: Self::addr(&b.inner) });
+            return self.made[&r];
+        }
+        let h = match place {
+            Place::Zst(n) => {
+                ZC[n].id.store(r, Ordering::SeqCst);
+                ZC[n].live.store(true, Ordering::SeqCst);
+                let rec: DynRec = match n {
+                    0 => Box::leak(Box::new(Z::<0>)), 1 => Box::leak(Box::new(Z::<1>)),
+                    2 => Box::leak(Box::new(Z::<2>)), _ => Box::leak(Box::new(Z::<3>)) };
+                Handle { rec, live: &ZC[n].live, addr: Self::addr(rec) }
+            }
+            Place::Slot(s, ty) => {
+                let mem: &'static Dbl = *self.slots.entry(s).or_insert_with(|| Box::leak(Box::new(Dbl::new(u64::MAX))));
+                // Dbl and Dbl2 are repr(C) with identical fields: the same storage seen as either type
+                let rec: DynRec = if ty == 0 { mem } else { unsafe { &*(mem as *const Dbl as *const Dbl2) } };
+                Handle { rec, live: &mem.live, addr: Self::addr(mem) }
+            }
+            _ => { let b: &'static Dbl = Box::leak(Box::new(Dbl::new(r))); Handle { rec: b, live: &b.live, addr: Self::addr(b) } }
+        };
+        self.made.insert(r, h);
+        h
+    }
+    // first use of a recorder that lives in a slot: it is constructed where the previous occupant was
+    fn activate(&mut self, r: u64) -> Handle {
+        let h = self.handle(r);
+        if let Some(Place::Slot(s, _)) = self.place.get(&r).copied() {
+            if self.occupant.get(&s) != Some(&r) {
+                self.slots[&s].id.store(r, Ordering::SeqCst);
+                self.slots[&s].live.store(true, Ordering::SeqCst);
+                self.occupant.insert(s, r);
+            }
+        }
+        h
+    }
+    fn end_borrow(&mut self, r: u64) {
+        if let Some(Place::Slot(s, _)) = self.place.get(&r).copied() {
+            if self.occupant.get(&s) != Some(&r) { return; }   // not (or no longer) constructed: nothing to mark
+        }
+        self.handle(r).live.store(false, Ordering::SeqCst);
+    }
+    fn same_address_pairs(&self) -> usize {
+        let hs: Vec<(&u64, &Handle)> = self.made.iter().collect();
+        let mut n = 0;
+        for i in 0..hs.len() { for j in 0..i { if hs[i].1.addr == hs[j].1.addr { n += 1; } } }
+        n
+    }
 }
 
-enum Cmd { Install(u64, &'static Dbl), Drop(u64), Forget(u64), Enter(&'static Dbl), Exit, Panic, Emit(usize, Args), Quit }
+enum Cmd { Install(u64, DynRec), Drop(u64), Forget(u64), Enter(DynRec), Exit, Panic, Emit(usize, Args), Quit }
 enum Flow { Exit, Quit }
 struct Unwind; // panic payload of a scripted panic
 
 type Table = RefCell<HashMap<u64, LocalRecorderGuard<'static>>>;
 
 // The command loop of one worker.  depth = number of with_local_recorder closures this thread is inside of.
-fn cmd_loop(rx: &Receiver<Cmd>, ack: &Sender<()>, table: &Table, depth: usize) -> Flow {
+fn cmd_loop(rx: &Receiver<Cmd>, ack: &Sender<bool>, table: &Table, depth: usize) -> Flow {
     loop {
         match rx.recv().unwrap() {
             Cmd::Install(g, d) => {
                 let guard = metrics::set_default_local_recorder(d);
                 table.borrow_mut().insert(g, guard);
-                ack.send(()).unwrap();
+                ack.send(true).unwrap();
             }
             Cmd::Drop(g) => {
                 let x = table.borrow_mut().remove(&g);
                 if let Some(guard) = x { drop(guard); }
-                ack.send(()).unwrap();
+                ack.send(true).unwrap();
             }
             Cmd::Forget(g) => {
                 let x = table.borrow_mut().remove(&g);
                 if let Some(guard) = x { std::mem::forget(guard); }
-                ack.send(()).unwrap();
+                ack.send(true).unwrap();
             }
             Cmd::Enter(d) => {
-                let body = || metrics::with_local_recorder(d, || { ack.send(()).unwrap(); cmd_loop(rx, ack, table, depth + 1) });
+                let body = || metrics::with_local_recorder(d, || { ack.send(true).unwrap(); cmd_loop(rx, ack, table, depth + 1) });
                 if depth == 0 {
                     match catch_unwind(AssertUnwindSafe(body)) {
-                        Ok(Flow::Exit) => ack.send(()).unwrap(),
+                        Ok(Flow::Exit) => ack.send(true).unwrap(),
                         Ok(Flow::Quit) => return Flow::Quit,
-                        Err(p) => { if !p.is::<Unwind>() { std::panic::resume_unwind(p); } ack.send(()).unwrap() }
+                        Err(p) => { if !p.is::<Unwind>() { std::panic::resume_unwind(p); } ack.send(true).unwrap() }
                     }
                 } else {
-                    match body() { Flow::Exit => ack.send(()).unwrap(), Flow::Quit => return Flow::Quit }
+                    match body() { Flow::Exit => ack.send(true).unwrap(), Flow::Quit => return Flow::Quit }
                 }
             }
-            Cmd::Exit => { if depth > 0 { return Flow::Exit; } ack.send(()).unwrap(); }
-            Cmd::Panic => { if depth > 0 { std::panic::panic_any(Unwind); } ack.send(()).unwrap(); }
-            Cmd::Emit(site, a) => { sites::emit(site, &a); ack.send(()).unwrap(); }
+            Cmd::Exit => { if depth > 0 { return Flow::Exit; } ack.send(true).unwrap(); }
+            Cmd::Panic => { if depth > 0 { std::panic::panic_any(Unwind); } ack.send(true).unwrap(); }
+            Cmd::Emit(site, a) => { sites::emit(site, &a); ack.send(true).unwrap(); }
             Cmd::Quit => return Flow::Quit,
         }
     }
@@ -132,9 +235,21 @@ fn run_case(line: &str) -> String {
             nthreads = nthreads.max(tid + 1);
         }
     }
-    let mut doubles: HashMap<u64, &'static Dbl> = HashMap::new();
-    let mut dbl = |r: u64| -> &'static Dbl { *doubles.entry(r).or_insert_with(|| Box::leak(Box::new(Dbl { id: r, live: AtomicBool::new(true) }))) };
-    let (ack_tx, ack_rx) = channel::<()>();
+    let mut dd = Doubles { place: HashMap::new(), inner_of: HashMap::new(), made: HashMap::new(), slots: HashMap::new(), occupant: HashMap::new() };
+    for t in &toks {
+        if let Some(rest) = t.strip_prefix('R') {
+            let (r, p) = two(rest);
+            let (k, v) = p.split_at(1);
+            let place = match k {
+                "w" => { let i: u64 = v.parse().unwrap(); dd.inner_of.insert(i, r); Place::Wrap(i) }
+                "z" => Place::Zst(v.parse().unwrap()),
+                "s" => { let (a, b) = v.split_once('.').unwrap(); Place::Slot(a.parse().unwrap(), b.parse().unwrap()) }
+                _ => panic!("bad placement {}", t),
+            };
+            dd.place.insert(r, place);
+        }
+    }
+    let (ack_tx, ack_rx) = channel::<bool>();
     let mut txs: Vec<Sender<Cmd>> = Vec::new();
     let mut joins = Vec::new();
     for t in 0..nthreads {
@@ -143,8 +258,12 @@ fn run_case(line: &str) -> String {
         txs.push(tx);
         joins.push(std::thread::spawn(move || {
             WORKER.with(|w| w.set(t));
-            let table: Table = RefCell::new(HashMap::new());
-            let _ = cmd_loop(&rx, &ack, &table, 0);
+            // a panic that is not a scripted one (i.e. one raised inside the code under test) is an outcome of the case
+            let r = catch_unwind(AssertUnwindSafe(|| {
+                let table: Table = RefCell::new(HashMap::new());
+                let _ = cmd_loop(&rx, &ack, &table, 0);
+            }));
+            if let Err(p) = r { let _ = ack.send(false); std::panic::resume_unwind(p); }
         }));
     }
     LOG.lock().unwrap().clear();
@@ -153,19 +272,24 @@ fn run_case(line: &str) -> String {
     let mut broken: Option<String> = None;
     let send = |t: u64, c: Cmd| -> Result<(), String> {
         txs[t as usize].send(c).map_err(|_| format!("worker {} gone", t))?;
-        ack_rx.recv_timeout(std::time::Duration::from_secs(60)).map_err(|_| format!("worker {} did not answer", t))
+        match ack_rx.recv_timeout(std::time::Duration::from_secs(60)) {
+            Ok(true) => Ok(()),
+            Ok(false) => Err(format!("worker {} panicked", t)),
+            Err(_) => Err(format!("worker {} did not answer", t)),
+        }
     };
     for tok in &toks {
         let (c, rest) = tok.split_at(1);
         let r = match c {
-            "I" => { let (t, r) = two(rest); let g = next_gid; next_gid += 1; send(t, Cmd::Install(g, dbl(r.parse().unwrap()))) }
-            "W" => { let (t, r) = two(rest); next_gid += 1; send(t, Cmd::Enter(dbl(r.parse().unwrap()))) }
+            "R" => Ok(()),
+            "I" => { let (t, r) = two(rest); let g = next_gid; next_gid += 1; send(t, Cmd::Install(g, dd.activate(r.parse().unwrap()).rec)) }
+            "W" => { let (t, r) = two(rest); next_gid += 1; send(t, Cmd::Enter(dd.activate(r.parse().unwrap()).rec)) }
             "D" => { let (t, g) = two(rest); send(t, Cmd::Drop(g.parse().unwrap())) }
             "F" => { let (t, g) = two(rest); send(t, Cmd::Forget(g.parse().unwrap())) }
             "X" => send(rest.parse().unwrap(), Cmd::Exit),
             "P" => send(rest.parse().unwrap(), Cmd::Panic),
-            "B" => { dbl(rest.parse().unwrap()).live.store(false, Ordering::SeqCst); Ok(()) }
-            "G" => { let _ = metrics::set_global_recorder(dbl(rest.parse().unwrap())); Ok(()) }
+            "B" => { dd.end_borrow(rest.parse().unwrap()); Ok(()) }
+            "G" => { let _ = metrics::set_global_recorder(dd.activate(rest.parse().unwrap()).rec); Ok(()) }
             "E" => {
                 let f: Vec<&str> = rest.split(':').collect();
                 let t: u64 = f[0].parse().unwrap();
@@ -189,7 +313,7 @@ fn run_case(line: &str) -> String {
     for j in joins { if j.join().is_err() && broken.is_none() { broken = Some("worker panicked".into()); } }
     match broken {
         Some(e) => format!("{{\"error\":\"{}\"}}", e.replace('"', "'")),
-        None => format!("[{}]", out.join(",")),
+        None => format!("{{\"o\":[{}],\"same\":{}}}", out.join(","), dd.same_address_pairs()),
     }
 }
 
